@@ -10,6 +10,7 @@ import (
 	"sort"
 	"strings"
 	"sync"
+	"sync/atomic"
 	"testing"
 	"time"
 
@@ -89,7 +90,16 @@ func genMRouted(t *rapid.T, mids []string, depth int, label string, counter *int
 		// this message
 		m["makeTimer"] = map[string]interface{}{"id": fmt.Sprintf("bait%d", *counter), "in": "1h", "message": map[string]interface{}{"to": "nobody"}}
 	}
-	if depth < 2 {
+	if depth < 2 && rapid.IntRange(0, 11).Draw(t, label+".burst") == 7 {
+		// a burst for the websocket service: more messages at once than
+		// the channel to its client holds (10)
+		em := []interface{}{}
+		for i := rapid.IntRange(12, 30).Draw(t, label+".nburst"); i > 0; i-- {
+			*counter++
+			em = append(em, map[string]interface{}{"n": float64(*counter), "depth": float64(depth + 1), "to": "ws"})
+		}
+		m["emit"] = em
+	} else if depth < 2 {
 		if fan := rapid.IntRange(0, 2).Draw(t, label+".fan"); fan > 0 {
 			em := []interface{}{}
 			for i := 0; i < fan; i++ {
@@ -182,7 +192,23 @@ func checkMRoute(c MRouteCase) (v ev.Verdict) {
 	}()
 	s.Emitted = make(chan interface{}, 4096)
 	s.Errors = make(chan interface{}, 4096)
-	s.wsClientC = make(chan interface{}, 4096)
+	// the channel to the websocket client as WebSocketClient makes it
+	// (ten places), and a client that takes its time
+	s.wsClientC = make(chan interface{}, 10)
+	var gotWS atomic.Int64
+	wsDone := make(chan struct{})
+	defer close(wsDone)
+	go func() {
+		for {
+			select {
+			case <-wsDone:
+				return
+			case <-s.wsClientC:
+				gotWS.Add(1)
+				time.Sleep(50 * time.Microsecond)
+			}
+		}
+	}()
 	for _, mid := range c.Mids {
 		if err := s.AddMachine(ctx, "vrecorder", mid, "", nil); err != nil {
 			v.Failf("AddMachine %q: %v", mid, err)
@@ -313,9 +339,15 @@ func checkMRoute(c MRouteCase) (v ev.Verdict) {
 		v.Failf("the service reported emitted messages\n %v\nbut the machines emitted exactly\n %v (store down per message: %v)", gotEmitted, wantEmitted, c.Down)
 		return
 	}
-	if len(s.wsClientC) != wantWS {
-		v.Failf("%d messages were addressed to the websocket service, it received %d", wantWS, len(s.wsClientC))
+	for deadline := time.Now().Add(5 * time.Second); int(gotWS.Load()) < wantWS && time.Now().Before(deadline); {
+		time.Sleep(time.Millisecond)
+	}
+	if int(gotWS.Load()) != wantWS {
+		v.Failf("%d messages were addressed to the websocket service, it received %d", wantWS, gotWS.Load())
 		return
+	}
+	if wantWS > 10 {
+		v.Class("websocket-burst")
 	}
 	if js, err := json.Marshal(s.timers); err == nil && strings.Contains(string(js), "bait") {
 		v.Failf("the timers service acted on a message that was not addressed to it: %s", js)
